@@ -40,6 +40,31 @@ type c13Req struct {
 	Cuts  []int // fragment boundaries in payload bytes of the ICMP message (8-aligned); nil = unfragmented
 	Order []int // arrival order of fragments
 	Split int   `json:",omitempty"` // > 0: the (unfragmented) packet is handed over as two views cut at this byte
+	Flip  int   `json:",omitempty"` // > 0: bit Flip-1 of the ICMP message is inverted in transit (its checksum no longer verifies)
+	Trunc int   `json:",omitempty"` // > 0: the ICMP message is only Trunc bytes long (shorter than an echo header), checksum correct
+}
+
+// damaged: not an echo request anybody sent; it must not be answered.
+func (q c13Req) damaged() bool { return q.Flip > 0 || q.Trunc > 0 }
+
+func c13Damage(q c13Req, msg []byte, src, dst []byte) []byte {
+	if q.Trunc > 0 && q.Trunc < len(msg) {
+		msg = append([]byte(nil), msg[:q.Trunc]...)
+		if len(msg) >= 4 {
+			msg[2], msg[3] = 0, 0
+			var init uint16
+			if q.V6 {
+				init = ref.PseudoSum(src, dst, ref.ProtoICMPv6, uint32(len(msg)))
+			}
+			c := ^ref.Sum(msg, init)
+			msg[2], msg[3] = byte(c>>8), byte(c)
+		}
+	}
+	if q.Flip > 0 && (q.Flip-1)/8 < len(msg) {
+		msg = append([]byte(nil), msg...)
+		msg[(q.Flip-1)/8] ^= 0x80 >> uint((q.Flip-1)%8)
+	}
+	return msg
 }
 
 var (
@@ -103,6 +128,7 @@ func (w *c13World) packets(q c13Req) [][]byte {
 	if q.V6 {
 		src := []byte(addrB6)
 		msg := ref.BuildICMPv6Echo(128, q.Ident, q.Seq, data, src, dst)
+		msg = c13Damage(q, msg, src, dst)
 		if q.Cuts == nil {
 			return [][]byte{ref.BuildIPv6(src, dst, ref.ProtoICMPv6, 64, msg)}
 		}
@@ -114,6 +140,7 @@ func (w *c13World) packets(q c13Req) [][]byte {
 	} else {
 		src := []byte(addrB4)
 		msg := ref.BuildICMPv4Echo(8, q.Ident, q.Seq, data)
+		msg = c13Damage(q, msg, src, dst)
 		w.ipID++
 		if q.Cuts == nil {
 			return [][]byte{ref.BuildIPv4(src, dst, ref.ProtoICMP, w.ipID, 0, 0, 64, msg)}
@@ -163,6 +190,21 @@ func (w *c13World) round(reqs []c13Req, burst bool) *c13Fail {
 	frames := w.r.Collect()
 	if w.r.MonErr != nil {
 		return &c13Fail{"malformed-reply", "the stack emitted a malformed frame: " + w.r.MonErr.Error()}
+	}
+	if len(reqs) == 1 && reqs[0].damaged() {
+		q := reqs[0]
+		for _, d := range frames {
+			if d.ICMP != nil && ((!d.V6 && d.ICMP.Type == 0) || (d.V6 && d.ICMP.Type == 129)) {
+				if q.Trunc > 0 {
+					return &c13Fail{"truncated-request-answered", fmt.Sprintf("an ICMP message of type echo that is only %d bytes long (no complete echo header; v6=%v) was answered with an echo reply of %d ICMP bytes", q.Trunc, q.V6, 8+len(d.ICMP.Data))}
+				}
+				return &c13Fail{"damaged-request-answered", fmt.Sprintf("an echo request (v6=%v id %d seq %d, %d payload bytes) whose bit %d was inverted in transit - its ICMP checksum does not verify - was answered with an echo reply (id %d seq %d, %d payload bytes, valid checksum): the reply corresponds to no request that was sent", q.V6, q.Ident, q.Seq, q.Len, q.Flip-1, d.ICMP.Ident, d.ICMP.Seq, len(d.ICMP.Data))}
+			}
+		}
+		return nil
+	}
+	if err := w.r.w.AliasErr(); err != nil {
+		return &c13Fail{"reply-modified-after-send", "a link endpoint that queues frames would send something else: " + err.Error()}
 	}
 	answered := make([]int, len(reqs))
 	for _, d := range frames {
@@ -231,7 +273,7 @@ func tcpipAddr(b []byte) tcpipAddress { return tcpipAddress(b) }
 var c13IDs = []uint16{0, 1, 0x7fff, 0x8000, 0xffff}
 
 func c13Jobs(tier string) []string {
-	jobs := []string{"idseq:4", "idseq:6", "dest:4", "dest:6", "burst:4", "burst:6", "frag:4", "frag:6", "views:4", "views:6"}
+	jobs := []string{"idseq:4", "idseq:6", "dest:4", "dest:6", "burst:4", "burst:6", "frag:4", "frag:6", "views:4", "views:6", "damaged:4", "damaged:6"}
 	for i := 0; i < 8; i++ {
 		jobs = append(jobs, fmt.Sprintf("len:4:%d/8", i), fmt.Sprintf("len:6:%d/8", i))
 	}
@@ -329,6 +371,19 @@ func c13Run(job, tier string, deadline time.Time) *engine.Result {
 			for cut := hdr + 8; cut < hdr+8+l; cut++ {
 				do([]c13Req{{V6: v6, Ident: 0x4242, Seq: uint16(cut), Len: l, Fill: 1, Split: cut}}, false)
 			}
+		}
+	case "damaged":
+		// every single-bit damage of an echo request (a single inverted bit always breaks the
+		// one's-complement checksum), and every length below a complete echo header
+		for _, l := range []int{0, 1, 8, 33} {
+			for bit := 0; bit < (8+l)*8; bit++ {
+				do([]c13Req{{V6: v6, Ident: 0x1234, Seq: 7, Len: l, Fill: 1, Flip: bit + 1}}, false)
+			}
+			// the same request undamaged is answered (the oracle above is not vacuous)
+			do([]c13Req{{V6: v6, Ident: 0x1234, Seq: 7, Len: l, Fill: 1}}, false)
+		}
+		for t := 1; t < 8; t++ {
+			do([]c13Req{{V6: v6, Ident: 0x1234, Seq: 7, Len: 8, Trunc: t}}, false)
 		}
 	case "burst":
 		for _, k := range []int{1, 9, 10, 11, 14} {
